@@ -30,6 +30,8 @@ BIDS = ["1000", "1001", "0001", "0999", "1999", "22000", "0033", "9998", "1", "1
 SPECIAL_PATTERNS = ["v[[MAJOR.]MINOR.]PATCH", "MAJOR.MINOR[[.PATCH]-TAG]", "vYYYY.BUILD[[-TAG].NUM]", "MAJOR[.MINOR][-TAG]", "vMAJOR[[.MINOR].PATCH]",
                     # the same part twice (the second occurrence gets a suffixed group name)
                     "vYYYY0M.BUILD[-TAG] (c) YYYY", "YYYY.BUILD[-TAG][+bBUILD]", "apiMAJOR/vMAJOR.MINOR.PATCH",
+                    # ... and three times (every occurrence needs a group name of its own)
+                    "YYYY.0M.0D (0D.0M.YYYY, day 0D)", "MAJOR.MINOR.PATCH (api MAJOR, abi MAJOR)",
                     # a week part alone in an optional group (week 0 is a value, not a zero to be omitted); literal text closing an optional group
                     "vYYYY[.WW]", "YYYY[.UU[.INC0]]", "YYYY[wWW][-TAG]", "MAJOR.MINOR.PATCH[-TAG[.NUM]-x]", "vMAJOR.MINOR[.PATCH[-TAG]+local]",
                     # INC1 restarts at 1, which is not a zero: an optional group holding it is always written
